@@ -413,7 +413,23 @@ VariablesStack::findXObject(
                 const PushAndPopContextMarker   theContextMarkerPushPop(executionContext);
 #endif
 
-                theNewValue = var->getValue(executionContext, doc);
+                {
+                    // A top-level variable is evaluated with the root node
+                    // as the current node, and a current node list that
+                    // contains just that node, regardless of where the
+                    // variable is referenced for the first time.
+                    typedef StylesheetExecutionContext::BorrowReturnMutableNodeRefList  BorrowReturnMutableNodeRefList;
+
+                    BorrowReturnMutableNodeRefList  theRootNodeList(executionContext);
+
+                    theRootNodeList->addNode(doc);
+
+                    const XPathExecutionContext::ContextNodeListPushAndPop  theContextNodeListPushAndPop(
+                            executionContext,
+                            *theRootNodeList);
+
+                    theNewValue = var->getValue(executionContext, doc);
+                }
                 assert(theNewValue.null() == false);
 
 #if !defined(XALAN_RECURSIVE_STYLESHEET_EXECUTION)
